@@ -261,3 +261,18 @@ Example rx_cast_tbl_defaults :
             /\ fill_cell cast_tbl n DBool PNone = Ret (CB false) /\ fill_cell cast_tbl n (DStr 2) PNone = Ret (CS "")
             /\ fill_cell cast_tbl n DObj PNone = Ret (CV PNone).
 Proof. intros n. repeat split. Qed.
+
+(* ---------- KEPT FINDING (reindex face of C10's): a NumPy datetime64[ns] array OLD span — `period in span` (NumPy's own test) says
+   the period is there, the fallback lookup then fails on the object cast, and the whole call raises KeyError: the old values cannot
+   be carried over ---------- *)
+Definition rx_ns_state : cst := mkC ex_ns_arr 0 [("F", mkSeries DFloat 1 [CF (FNum 2); CF (FNum 4); CF (FNum 6)])] [] false.
+Theorem reindex_arr_datetime64ns_refuted :
+  wf rx_ns_state /\ NoDup (span_labels (c_span rx_ns_state))
+  /\ reindex_M no_pandas no_contains cast_tbl rx_ns_state ex_ns_arr 9 PNone None [] 100 = Raise KeyError
+  /\ (* only periods that are NOT in the old span can be asked for *)
+     option_map (fun s => map (fun kv => s_data (snd kv)) (c_vars s))
+                (match reindex_M no_pandas no_contains cast_tbl rx_ns_state (SList [LTs 5]) 9 PNone None [] 100 with Ret s => Some s | Raise _ => None end)
+     = Some [[CF FNan]].
+Proof.
+  split; [repeat constructor|]. split; [simpl; repeat constructor; simpl; intuition discriminate|]. split; vm_compute; reflexivity.
+Qed.
